@@ -4,7 +4,7 @@ EXPLANATION = ("Reduced claim over a small corpus: a token is at a listening cat
                "alternatives of an event-based gateway (real node goroutines and flow loop), and the context is cancelled - by a goroutine of its own, so the "
                "cancellation point ranges over the whole scenario under the symbolic scheduler, or once everything is quiet. Decided: every token's goroutine exits "
                "(the flow wait group reaches zero) and the token does not move on. A token at a pending task (thorough tier) does not close within the budget. "
-               "Termination of the real tracers after cancellation is C09's subject (thorough tier), timers never firing after cancellation C13's, waiters with "
+               "Termination of a real tracer after cancellation is decided by C09.b (quick tier); tracer + relay wind-down is a thorough-tier scenario here that did not close when written, timers never firing after cancellation C13's, waiters with "
                "expired contexts C02's. NOT covered: sub-processes, boundary listeners, goroutine-leak freedom of node goroutines (only the flow wait group is "
                "observed), tracer/relay termination inside an instance, task requests racing with the cancellation.")
 ASSUMPTIONS = ["tracer replaced by the synchronous stub (so tracer termination is not part of this scenario)",
@@ -15,6 +15,9 @@ def sc(entry, name, bounds, K=100, tiers=("quick", "thorough")):
                 expect_obligations=["a cancelled instance does not move on"])
 
 
+RELAY_EO = ["every Send of a registered sender returns after cancellation", "after cancellation and the last sender's Done the inner tracer's goroutine has exited",
+            "after cancellation the relay has released its sender handle and the outer tracer's goroutine has exited",
+            "traces sent by a registered sender before it reports Done are relayed even after cancellation"]
 SCENARIOS = [
     sc("VerifC07_ListeningCatch", "C07 cancel while a catch event listens (quiet point)", "token listening at a catch event; cancellation once everything is quiet"),
     sc("VerifC07_ListeningCatchAnywhere", "C07 cancel at an arbitrary point, catch event", "token on its way to / listening at a catch event; cancellation at every point of every interleaving"),
@@ -24,4 +27,9 @@ SCENARIOS = [
     dict(name="C07 cancel while a task request is pending", entry="VerifC07_PendingTask", K=120, reach=["quiescent"], overrides=STD, tiers=("thorough",),
          expect_obligations=["a cancelled instance does not move on"],
          bounds="one token at a pending task, cancellation at every point of every interleaving"),
+    dict(name="C07 tracer + relay wind down, cancel first", entry="VerifC07_Relay_CancelFirst_2", harness="tracing", K=90, reach=["quiescent"], tiers=("thorough",),
+         overrides={"(*github.com/olive-io/bpmn/v2/pkg/tracing.tracer).Subscribe": "verifSubscribe1"},
+         expect_obligations=RELAY_EO[:3],
+         bounds="real inner + outer tracer and NewRelay; context cancelled, then 1 registered sender x 2 traces; relay subscription capacity 1 (stand-in for 10); "
+                "did not close within 600 s / 39 steps when written - kept in the thorough tier, INCONCLUSIVE when it does not close"),
 ]
